@@ -34,6 +34,9 @@ func (e *Env) verifyLemma(lm *Lemma) (res *FuncResult) {
 		}
 	}()
 	ft.c.Preamble = append(ft.c.Preamble, e.smtPre...)
+	if gInt {
+		ft.c.addPre("intmode", intModePreamble)
+	}
 	ft.topCon = &Contract{Reveal: lm.Reveal}
 	pkg := e.pkgByName(lm.Pkg)
 	if pkg == nil {
